@@ -1568,15 +1568,17 @@ pub fn run(args: &Args) -> i32 {
         match (args.thorough, phase) {
             (false, Phase::HsKeys) => vec![(6, 1, 0.25)],
             (false, _) => vec![(7, 1, 0.075)],
-            (true, Phase::Confirmed) => vec![(9, 1, 1.1), (9, 2, 7.0)],
-            (true, Phase::NoKeys) => vec![(9, 1, 1.0), (9, 2, 5.5)],
-            (true, Phase::HsKeys) => vec![(7, 1, 1.5), (8, 1, 9.0), (7, 2, 8.0)],
+            // sized for ~500 CPU-seconds in total so that the tier also completes on a busy
+            // machine; (9,2) / (8,1) for the three-space phase are 5–8 million transitions each
+            (true, Phase::Confirmed) => vec![(9, 1, 1.1), (8, 2, 1.9)],
+            (true, Phase::NoKeys) => vec![(9, 1, 1.0), (7, 2, 0.4)],
+            (true, Phase::HsKeys) => vec![(7, 1, 1.5), (6, 2, 1.4)],
         }
     };
     let total_cap: f64 = std::env::var("VERIF_C13_CAP")
         .ok()
         .and_then(|s| s.parse().ok())
-        .unwrap_or(if args.thorough { 540.0 } else { 36.0 });
+        .unwrap_or(if args.thorough { 560.0 } else { 38.0 });
     if let Err(e) = determinism_self_test() {
         eprintln!("machinery error: {e}");
         return 2;
